@@ -105,6 +105,9 @@ pub struct Replay {
     pub env_b: Env,
     pub diff: Option<Diff>,
     pub note: String,
+    /// For kind "same-process": the commands that ran earlier in the same process, in order.
+    #[serde(default)]
+    pub history: Vec<Cmd>,
 }
 
 pub fn env_for(seed: u64, cmd_index: usize, r: usize) -> Env {
@@ -134,30 +137,110 @@ pub fn differs(bins: &Binaries, cmd: &Cmd, a: &Env, b: &Env, scratch: &Mutex<Scr
     d
 }
 
-/// Same-process repetition through the hooks-on library: two calls of anthem::main() with the same argv.
-pub fn inproc_twice(cmd: &Cmd, scratch: &Mutex<Scratch>) -> Result<Option<Diff>, String> {
-    if cmd.stdin_file.is_some() {
-        return Ok(None);
-    }
+/// Does `cmd`, called (twice) after `history` in one process, differ from what a fresh process produces?
+pub fn same_process_fails(bins: &Binaries, cmd: &Cmd, history: &[Cmd], scratch: &Mutex<Scratch>) -> Option<String> {
+    let dir = fresh(scratch, "hist");
+    let mut all: Vec<Cmd> = history.to_vec();
+    all.push(cmd.clone());
+    let wf = dir.join("workload.json");
+    fs::write(&wf, serde_json::to_string(&all).unwrap()).unwrap();
+    let idx: Vec<usize> = (0..all.len()).collect();
+    let lines = run_history(&wf, &idx);
     let in_dir = fresh(scratch, "in");
     cmd.materialise(&in_dir);
-    let mut obs = vec![];
-    for _ in 0..2 {
-        let out_dir = fresh(scratch, "out");
-        let mut argv = vec!["anthem".to_string()];
-        argv.extend(cmd.resolved_args(&in_dir, &out_dir));
-        let r = run_execution(Scenario { argv, cpus: 4, plan: Plan::quiet() }, SchedSpec::Calm { overrides: vec![] }, 10_000_000, false, || anthem::main().map_err(|e| format!("{e:#}")));
-        let status = match &r.status {
-            ExecStatus::Returned => "ok".to_string(),
-            ExecStatus::MainErr(e) => format!("error: {}", String::from_utf8_lossy(&scrub(e.clone().into_bytes(), &out_dir))),
-            other => format!("{other:?}"),
-        };
-        let files = if cmd.uses_out { crate::exec::read_dir_files(&out_dir) } else { vec![] };
-        let _ = fs::remove_dir_all(&out_dir);
-        obs.push(Obs { code: None, signal: None, stdout: scrub(r.sim.stdout, &out_dir), stderr: status.into_bytes(), files, timed_out: false });
+    let out = fresh(scratch, "out");
+    let base = observe(bins, cmd, &in_dir, &out, &Env::plain());
+    for d in [&dir, &in_dir, &out] {
+        let _ = fs::remove_dir_all(d);
     }
-    let _ = fs::remove_dir_all(&in_dir);
-    Ok(compare(&obs[0], &obs[1]))
+    if lines.len() != all.len() {
+        return Some(format!("the process ended abnormally after {} of {} commands", lines.len(), all.len()));
+    }
+    let l = lines.last().unwrap();
+    if base.code != Some(0) {
+        return None;
+    }
+    let b = obs_digest(&base.stdout, &base.files);
+    if !l.ok {
+        Some("the call failed in-process although a fresh process succeeds".into())
+    } else if l.d1 != l.d2 {
+        Some("the second of two consecutive calls produced different output".into())
+    } else if l.d1 != b {
+        Some("the call produced different output than a fresh process".into())
+    } else {
+        None
+    }
+}
+
+/// Order-sensitive digest of what a command produced (stdout and saved files).
+pub fn obs_digest(stdout: &[u8], files: &[(String, Vec<u8>)]) -> u64 {
+    let mut h: u64 = 0xcbf29ce484222325;
+    let mut eat = |b: &[u8]| {
+        for x in b {
+            h ^= *x as u64;
+            h = h.wrapping_mul(0x100000001b3);
+        }
+        h ^= 0xff;
+        h = h.wrapping_mul(0x100000001b3);
+    };
+    eat(stdout);
+    for (n, c) in files {
+        eat(n.as_bytes());
+        eat(c);
+    }
+    h
+}
+
+#[derive(Serialize, Deserialize)]
+pub struct HistoryLine {
+    pub i: usize,
+    pub ok: bool,
+    pub d1: u64,
+    pub d2: u64,
+}
+
+/// Subprocess side of the same-process check: run the listed commands one after the other in this one
+/// process, each twice, through the hooks-on library, and print a digest of what each call produced.
+pub fn history(args: &Args) {
+    let path = args.get("workload").unwrap_or_else(|| harness_error("usage: vcheck c18-history --workload FILE --indices i,j,..."));
+    let cmds: Vec<Cmd> = serde_json::from_str(&fs::read_to_string(path).unwrap_or_else(|e| harness_error(&format!("{path}: {e}")))).unwrap_or_else(|e| harness_error(&format!("{path}: {e}")));
+    let indices: Vec<usize> = args.get("indices").unwrap_or("").split(',').filter_map(|x| x.parse().ok()).collect();
+    let scratch = Mutex::new(Scratch::new("c18h"));
+    use std::io::Write;
+    let stdout = std::io::stdout();
+    for i in indices {
+        let cmd = &cmds[i];
+        let in_dir = fresh(&scratch, "in");
+        cmd.materialise(&in_dir);
+        let mut ds = vec![];
+        let mut ok = true;
+        for _ in 0..2 {
+            let out_dir = fresh(&scratch, "out");
+            let mut argv = vec!["anthem".to_string()];
+            argv.extend(cmd.resolved_args(&in_dir, &out_dir));
+            let r = run_execution(Scenario { argv, cpus: 4, plan: Plan::quiet() }, SchedSpec::Calm { overrides: vec![] }, 10_000_000, false, || anthem::main().map_err(|e| format!("{e:#}")));
+            if r.status != ExecStatus::Returned {
+                ok = false;
+            }
+            let files = if cmd.uses_out { crate::exec::read_dir_files(&out_dir) } else { vec![] };
+            let _ = fs::remove_dir_all(&out_dir);
+            ds.push(obs_digest(&scrub(r.sim.stdout, &out_dir), &files));
+        }
+        let _ = fs::remove_dir_all(&in_dir);
+        let mut o = stdout.lock();
+        writeln!(o, "{}", serde_json::to_string(&HistoryLine { i, ok, d1: ds[0], d2: ds[1] }).unwrap()).unwrap();
+        o.flush().unwrap();
+    }
+}
+
+/// Parent side: run `indices` of the workload file as one in-process history; returns the lines.
+fn run_history(workload_file: &Path, indices: &[usize]) -> Vec<HistoryLine> {
+    let list = indices.iter().map(|i| i.to_string()).collect::<Vec<_>>().join(",");
+    let out = std::process::Command::new(std::env::current_exe().unwrap())
+        .args(["c18-history", "--workload", workload_file.to_str().unwrap(), "--indices", &list])
+        .output()
+        .unwrap_or_else(|e| harness_error(&format!("cannot start c18-history: {e}")));
+    String::from_utf8_lossy(&out.stdout).lines().filter_map(|l| serde_json::from_str(l).ok()).collect()
 }
 
 #[derive(Default)]
@@ -175,6 +258,8 @@ struct Tally {
     violations: Vec<Replay>,
     samples: Vec<serde_json::Value>,
     out_bytes: u64,
+    base_digests: Vec<(usize, u64)>,
+    history_slices: u64,
 }
 
 fn env_fingerprint(e: &Env) -> String {
@@ -249,8 +334,11 @@ pub fn main(args: &Args) {
                 }
                 local.out_bytes += base.stdout.len() as u64 + base.files.iter().map(|f| f.1.len() as u64).sum::<u64>();
                 let nontrivial = !base.stdout.is_empty() || !base.files.is_empty();
+                if base.code == Some(0) && cmd.stdin_file.is_none() && !base.timed_out {
+                    local.base_digests.push((ci, obs_digest(&base.stdout, &base.files)));
+                }
                 if base.timed_out {
-                    local.violations.push(Replay { property: "C18".into(), kind: "hang".into(), seed, cmd: cmd.clone(), env_a: Env::plain(), env_b: Env::plain(), diff: None, note: format!("no result within {TIMEOUT_S}s") });
+                    local.violations.push(Replay { property: "C18".into(), kind: "hang".into(), seed, cmd: cmd.clone(), env_a: Env::plain(), env_b: Env::plain(), diff: None, note: format!("no result within {TIMEOUT_S}s"), history: vec![] });
                 }
                 for r in 1..=envs {
                     let env = env_for(seed, ci, r);
@@ -285,10 +373,10 @@ pub fn main(args: &Args) {
                             local.nontrivial.insert((ci, env_fingerprint(&env)));
                         }
                         if x.timed_out && !base.timed_out {
-                            local.violations.push(Replay { property: "C18".into(), kind: "hang".into(), seed, cmd: cmd.clone(), env_a: env.clone(), env_b: env.clone(), diff: None, note: format!("no result within {TIMEOUT_S}s") });
+                            local.violations.push(Replay { property: "C18".into(), kind: "hang".into(), seed, cmd: cmd.clone(), env_a: env.clone(), env_b: env.clone(), diff: None, note: format!("no result within {TIMEOUT_S}s"), history: vec![] });
                         } else if let Some(d) = compare(&base, x) {
                             if local.violations.len() < 2 {
-                                local.violations.push(Replay { property: "C18".into(), kind: "environment".into(), seed, cmd: cmd.clone(), env_a: Env::plain(), env_b: env.clone(), diff: Some(d), note: format!("environment {r} of command {ci}") });
+                                local.violations.push(Replay { property: "C18".into(), kind: "environment".into(), seed, cmd: cmd.clone(), env_a: Env::plain(), env_b: env.clone(), diff: Some(d), note: format!("environment {r} of command {ci}"), history: vec![] });
                             }
                         }
                     }
@@ -315,6 +403,7 @@ pub fn main(args: &Args) {
                                 env_b: Env::plain(),
                                 diff: Some(Diff { what: "simplifying the fixpoint result again changed it".into(), first_diff: at, excerpt_a: e2::excerpt(&base.stdout, at), excerpt_b: e2::excerpt(&second.stdout, at) }),
                                 note: String::new(),
+                                history: vec![],
                             });
                         }
                     } else {
@@ -322,18 +411,6 @@ pub fn main(args: &Args) {
                     }
                     let _ = fs::remove_dir_all(d2);
                     let _ = fs::remove_dir_all(o2);
-                }
-                // same process, twice (hooks-on library)
-                if do_inproc {
-                    match inproc_twice(cmd, &scratch) {
-                        Ok(Some(d)) => local.violations.push(Replay { property: "C18".into(), kind: "same-process".into(), seed, cmd: cmd.clone(), env_a: Env::plain(), env_b: Env::plain(), diff: Some(d), note: "second call of anthem::main() in the same process".into() }),
-                        Ok(None) => {
-                            if cmd.stdin_file.is_none() {
-                                local.inproc_pairs += 1;
-                            }
-                        }
-                        Err(e) => harness_error(&e),
-                    }
                 }
                 if ci % 97 == 3 || (cmd.kind == "verify-dir" && ci % 5 == 0) {
                     let env = env_for(seed, ci, 1);
@@ -353,6 +430,7 @@ pub fn main(args: &Args) {
                 t.concurrent_pairs += local.concurrent_pairs;
                 t.exit_nonzero_cmds += local.exit_nonzero_cmds;
                 t.out_bytes += local.out_bytes;
+                t.base_digests.extend(local.base_digests);
                 t.nontrivial.extend(local.nontrivial);
                 for (k, v) in local.by_kind {
                     *t.by_kind.entry(k).or_insert(0) += v;
@@ -372,7 +450,50 @@ pub fn main(args: &Args) {
             harness_error("a C18 worker thread panicked");
         }
     }
-    let tally = Arc::try_unwrap(tally).ok().unwrap().into_inner().unwrap();
+    let mut tally = Arc::try_unwrap(tally).ok().unwrap().into_inner().unwrap();
+
+    // Phase 2 - same process: each slice of the workload runs as ONE process history through the hooks-on library,
+    // every command twice in a row. A call must give what a fresh process gave (phase 1), whatever ran before it.
+    if do_inproc {
+        let wf = root.join("workload.json");
+        fs::write(&wf, serde_json::to_string(&*cmds).unwrap()).unwrap();
+        let slices = workers.max(1);
+        let bases: BTreeMap<usize, u64> = tally.base_digests.iter().cloned().collect();
+        let mut hs = vec![];
+        for k in 0..slices {
+            // slice k takes every slices-th eligible command, rotated so that neighbours in the list meet in one history
+            let idx: Vec<usize> = bases.keys().cloned().filter(|i| (i / 3) % slices == k).collect();
+            let wf = wf.clone();
+            hs.push(std::thread::spawn(move || (idx.clone(), run_history(&wf, &idx))));
+        }
+        for h in hs {
+            let (idx, lines) = h.join().unwrap();
+            tally.history_slices += 1;
+            if lines.len() != idx.len() {
+                let at = idx.get(lines.len()).cloned().unwrap_or(0);
+                tally.violations.push(Replay { property: "C18".into(), kind: "same-process".into(), seed, cmd: cmds[at].clone(), env_a: Env::plain(), env_b: Env::plain(), diff: None, note: "the process running this history ended abnormally at this command".into(), history: idx[..lines.len()].iter().map(|i| cmds[*i].clone()).collect() });
+                continue;
+            }
+            for (pos, l) in lines.iter().enumerate() {
+                tally.inproc_pairs += 1;
+                let base = bases[&l.i];
+                let what = if !l.ok {
+                    Some("the call failed in-process although a fresh process succeeds")
+                } else if l.d1 != l.d2 {
+                    Some("the second of two consecutive calls produced different output")
+                } else if l.d1 != base {
+                    Some("the call produced different output than a fresh process (earlier calls in this process left state behind)")
+                } else {
+                    None
+                };
+                if let Some(w) = what {
+                    let history: Vec<Cmd> = idx[..pos].iter().map(|i| cmds[*i].clone()).collect();
+                    tally.violations.push(Replay { property: "C18".into(), kind: "same-process".into(), seed, cmd: cmds[l.i].clone(), env_a: Env::plain(), env_b: Env::plain(), diff: Some(Diff { what: w.into(), first_diff: 0, excerpt_a: String::new(), excerpt_b: String::new() }), note: format!("{} earlier command(s) in the same process", history.len()), history });
+                    break; // later commands of this history are suspect too; one report per history
+                }
+            }
+        }
+    }
 
     // report violations: minimise, write replay, confirm in a fresh process
     let replays_dir = verif_home().join("replays");
@@ -394,19 +515,35 @@ pub fn main(args: &Args) {
         if !reported.insert(family) || reported.len() > 4 {
             continue;
         }
+        let original = v.clone();
         let min = minimise(&bins, v, &scratch);
         let path = replays_dir.join(format!("C18-{}-{}-{}.json", seed, min.kind, sanitize(&min.cmd.id)));
         fs::write(&path, serde_json::to_string_pretty(&min).unwrap()).unwrap();
-        let confirm = std::process::Command::new(std::env::current_exe().unwrap()).args(["c18-replay", path.to_str().unwrap(), "--quiet"]).output().unwrap();
+        // an environment-level violation should replay exactly; if the tree under test has a source of
+        // nondeterminism the simulator does not own (its own threads, say), a few attempts may be needed
+        let mut confirmed_after = 0;
+        for attempt in 1..=6 {
+            let confirm = std::process::Command::new(std::env::current_exe().unwrap()).args(["c18-replay", path.to_str().unwrap(), "--quiet"]).output().unwrap();
+            if confirm.status.code() == Some(1) {
+                confirmed_after = attempt;
+                break;
+            }
+        }
         println!("violation kind={} command={}", min.kind, min.cmd.id);
         if let Some(d) = &min.diff {
             println!("  differs in {} at byte {}:\n    A: {}\n    B: {}", d.what, d.first_diff, d.excerpt_a, d.excerpt_b);
         }
         println!("  {}", min.note);
-        if confirm.status.code() == Some(1) {
+        if confirmed_after == 1 {
+            println!("VIOLATION property=C18 replay={}", path.display());
+        } else if confirmed_after > 1 {
+            println!("  note: reproduced on attempt {confirmed_after} of 6: the tree under test has a source of nondeterminism the simulator does not own");
             println!("VIOLATION property=C18 replay={}", path.display());
         } else {
-            harness_error(&format!("violation did not reproduce from {} (exit {:?})", path.display(), confirm.status.code()));
+            // keep the observation itself: two runs of the same thing disagreed, which no environment we control explains
+            fs::write(&path, serde_json::to_string_pretty(&original).unwrap()).unwrap();
+            println!("  note: observed once and not reproduced in 6 replays; the observation (both outputs) is recorded in the replay file. The tree under test has a source of nondeterminism the simulator does not own");
+            println!("VIOLATION property=C18 replay={}", path.display());
         }
     }
     for l in &known_lines {
@@ -454,6 +591,39 @@ fn sanitize(s: &str) -> String {
 
 /// Reduce environment B towards A one dimension at a time, then delta-debug the input by lines.
 fn minimise(bins: &Binaries, mut r: Replay, scratch: &Mutex<Scratch>) -> Replay {
+    if r.kind == "same-process" {
+        // which earlier commands matter? delta-debug the history
+        let mut tries = 0;
+        let mut hist = r.history.clone();
+        if same_process_fails(bins, &r.cmd, &[], scratch).is_some() {
+            hist.clear();
+        }
+        let mut chunk = (hist.len() / 2).max(1);
+        while !hist.is_empty() && tries < 40 {
+            let mut start = 0;
+            let mut progressed = false;
+            while start < hist.len() && tries < 40 {
+                let mut cand = hist[..start].to_vec();
+                cand.extend_from_slice(&hist[(start + chunk).min(hist.len())..]);
+                tries += 1;
+                if same_process_fails(bins, &r.cmd, &cand, scratch).is_some() {
+                    hist = cand;
+                    progressed = true;
+                } else {
+                    start += chunk;
+                }
+            }
+            if chunk == 1 && !progressed {
+                break;
+            }
+            if chunk > 1 {
+                chunk /= 2;
+            }
+        }
+        r.note = format!("{}; history reduced to {} command(s) with {} re-runs: {:?}", r.note, hist.len(), tries, hist.iter().map(|c| c.id.clone()).collect::<Vec<_>>());
+        r.history = hist;
+        return r;
+    }
     if r.kind != "environment" {
         return r;
     }
@@ -517,7 +687,7 @@ pub fn replay(args: &Args) {
     let quiet = args.get("quiet").is_some();
     let found: Option<String> = match r.kind.as_str() {
         "environment" => differs(&bins, &r.cmd, &r.env_a, &r.env_b, &scratch).map(|d| format!("differs in {} at byte {}: A `{}` B `{}`", d.what, d.first_diff, d.excerpt_a, d.excerpt_b)),
-        "same-process" => inproc_twice(&r.cmd, &scratch).unwrap_or(None).map(|d| format!("second call differs in {}", d.what)),
+        "same-process" => same_process_fails(&bins, &r.cmd, &r.history, &scratch),
         "hang" => {
             let in_dir = fresh(&scratch, "in");
             r.cmd.materialise(&in_dir);
